@@ -145,3 +145,11 @@ fn c15_o3_rotation() {
     kani::cover!(dt > 300);
     kani::cover!(dt == 300);
 }
+
+
+impl Tokens {
+    /// (current secret, previous secret) -- observation for composite harnesses
+    pub(crate) fn kani_secrets(&self) -> ([u8; 20], [u8; 20]) {
+        (self.curr_secret, self.prev_secret)
+    }
+}
